@@ -305,7 +305,8 @@ Inductive stmt :=
 | SLCallS (f : nat) (args : list expr)         (* handler of this script, statement position *)
 | SSetObj (f : ofam) (pid : nat) (o v : expr)  (* set the <property pid> of <sound / sprite / cast> o to v *)
 | SSetThe (k : thekind) (i : nat) (v : expr)   (* set the <special / system property i> to v (5D 00 / 5D 07) *)
-| SSetAcc (n : nat) (o v : expr).              (* set the <names[n]> of o to v (62 n) *)
+| SSetAcc (n : nat) (o v : expr)               (* set the <names[n]> of o to v (62 n) *)
+| SSetMenu (pid : nat) (it mn v : expr).       (* set the <property pid> of menuItem it of menu mn to v (5D 03) *)
 
 Definition compile_store (t : target) : bytes :=
   match t with
@@ -323,6 +324,7 @@ Definition compile_s (s : stmt) : bytes :=
   | SSetObj f pid o v => compile_e o ++ compile_e v ++ compile_int (Z.of_nat pid) ++ [b 93; b (fcode f)]
   | SSetThe k i v => compile_e v ++ compile_int (the_num k i) ++ [b 93; b (the_code k)]
   | SSetAcc n o v => compile_e o ++ compile_e v ++ [b 98; b (Z.of_nat n)]
+  | SSetMenu pid it mn v => compile_e it ++ compile_e mn ++ compile_e v ++ compile_int (Z.of_nat pid) ++ [b 93; b 3]
   end.
 Definition ninstr_s (s : stmt) : nat :=
   match s with
@@ -331,6 +333,7 @@ Definition ninstr_s (s : stmt) : nat :=
   | SSetObj _ _ o v => (ninstr o + (ninstr v + 2))%nat
   | SSetThe _ _ v => (ninstr v + 2)%nat
   | SSetAcc _ o v => (ninstr o + (ninstr v + 1))%nat
+  | SSetMenu _ it mn v => (ninstr it + (ninstr mn + (ninstr v + 2)))%nat
   end.
 
 (* the declared properties of the script, as the parser's context holds them *)
@@ -368,6 +371,14 @@ Definition reify_s (en : env) (props : list string) (pc : Z) (s : stmt) : node :
     let pv := pc + zlen (compile_e o) in
     let ps := pv + zlen (compile_e v) in
     Stmt ps (Binary "assign" ps (Accessor ps (reify_e en pc o) (nm en n)) (reify_e en pv v))
+  | SSetMenu pid it mn v =>
+    let pm := pc + zlen (compile_e it) in
+    let pv := pm + zlen (compile_e mn) in
+    let ps := pv + zlen (compile_e v) + zlen (compile_int (Z.of_nat pid)) in
+    let i := reify_e en pc it in let mnode := reify_e en pm mn in
+    Stmt ps (Binary "assign" ps
+      (Accessor ps (MenuItemAcc ps (ObjRef KMenu (name_of mnode) ps mnode) (ObjRef KMenuItem (name_of i) ps i)) (nth pid MENUITEM_PROPERTIES ""))
+      (reify_e en pv v))
   end.
 
 Definition globals_s (en : env) (pc : Z) (s : stmt) : list node :=
@@ -377,6 +388,8 @@ Definition globals_s (en : env) (pc : Z) (s : stmt) : list node :=
   | SSetObj _ _ o v => globals_e en pc o ++ globals_e en (pc + zlen (compile_e o)) v
   | SSetThe _ _ v => globals_e en pc v
   | SSetAcc _ o v => globals_e en pc o ++ globals_e en (pc + zlen (compile_e o)) v
+  | SSetMenu _ it mn v =>
+    globals_e en pc it ++ globals_e en (pc + zlen (compile_e it)) mn ++ globals_e en (pc + zlen (compile_e it) + zlen (compile_e mn)) v
   end.
 
 Definition wf_target (en : env) (t : target) : Prop :=
@@ -393,6 +406,7 @@ Definition wf_s (en : env) (s : stmt) : Prop :=
   | SSetObj f pid o v => assignable f = true /\ (pid < List.length (ftable f))%nat /\ wf_e en o /\ wf_e en v
   | SSetThe k i v => (k = TSpecial \/ k = TSystem) /\ (i < List.length (the_table k))%nat /\ wf_e en v
   | SSetAcc n o v => (n < List.length (e_names en))%nat /\ Z.of_nat n < 256 /\ wf_e en o /\ wf_e en v
+  | SSetMenu pid it mn v => (pid < List.length MENUITEM_PROPERTIES)%nat /\ wf_e en it /\ wf_e en mn /\ wf_e en v
   end.
 
 (* a straight-line handler: its statements, then the handler's exit opcode *)
